@@ -10,6 +10,7 @@ pub fn model(tier: Tier, world: &str) -> Hist {
     let (w, s0) = world_by_name(if world.is_empty() { "A" } else { world });
     let mut roots = standard_roots(&w, &s0, true);
     roots.extend(tokenless_roots(&w, &s0));
+    roots.extend(killed_root(&w, &s0));
     let mut alpha = Alphabet::standard(vec![0, 1], vec![0, 1]);
     alpha.tokenless = true;
     alpha.vault_swaps = true;
@@ -48,6 +49,6 @@ pub fn run(tier: Tier) -> Outcome {
             "magnitudes explored: totals <= ~2^40 native units, share values < 2^8; amounts from the state-relative menus of hist.rs".into(),
             "hash collisions of the 256-bit state key are ignored".into(),
         ],
-        &["R4"],
+        &["R4", "RK"],
     )
 }
